@@ -38,8 +38,13 @@ def rsp_bytes(a, R):
     return prng_bytes("rsp%d" % a, R)
 
 
-def cmd_spec(a, L, api):
-    """-> (command bytes as they must appear in the I-blocks, call arguments)"""
+def cmd_spec(a, L, api, fill="prng", miu=0):
+    """-> (command bytes as they must appear in the I-blocks, call arguments)
+    fill: "prng" pseudo random payload | "zero" all-zero data field | "const" one value | "periodic" the command is one
+    pattern of `miu` bytes (which carries the id) repeated: all full I-blocks have identical content"""
+    if fill == "periodic" and miu > 2:
+        pat = (bytes([0x80, (a >> 8) & 0xFF, a & 0xFF]) + prng_bytes("pat%d" % a, miu))[:miu]
+        return (pat * (L // miu + 1))[:L], None
     if api == "send_apdu" and 4 <= L <= 260:
         hdr = bytes([0x00, 0xA0 + (a % 16), (a >> 8) & 0xFF, a & 0xFF])
         if L == 4:
@@ -47,9 +52,11 @@ def cmd_spec(a, L, api):
         if L == 5:
             mrl = (a % 255) + 1
             return hdr + bytes([mrl]), dict(cla=hdr[0], ins=hdr[1], p1=hdr[2], p2=hdr[3], data=None, mrl=mrl)
-        data = prng_bytes("cmd%d" % a, L - 5)
+        data = prng_bytes("cmd%d" % a, L - 5) if fill == "prng" else bytes([0x00 if fill == "zero" else 0x5A]) * (L - 5)
         return hdr + bytes([L - 5]) + data, dict(cla=hdr[0], ins=hdr[1], p1=hdr[2], p2=hdr[3], data=data, mrl=0)
-    body = (bytes([(a >> 8) & 0xFF, a & 0xFF]) + prng_bytes("raw%d" % a, max(0, L - 2)))[:L]
+    tail = prng_bytes("raw%d" % a, max(0, L - 2)) if fill == "prng" else \
+        bytes([0x00 if fill == "zero" else 0x5A]) * max(0, L - 2)
+    body = (bytes([(a >> 8) & 0xFF, a & 0xFF]) + tail)[:L]
     if L == 1:
         body = bytes([a & 0xFF])
     return body, None
@@ -123,6 +130,9 @@ class Rig(object):
                 last = not (pcb & 0x10)
                 cand = [o for o in range(0, len(cmd), self.miu) if cmd[o:o + len(inf)] == inf]
                 best = [o for o in cand if (o + len(inf) == len(cmd)) == last] or cand
+                # blocks of identical content: the one the card is waiting for (what it has reassembled so far)
+                want = len(self.card.cbuf)
+                best = [o for o in best if o == want] or best
                 if best:
                     a, k = self.cur["id"], best[0] // self.miu + 1
             return dict(t="I", bn=pcb & 1, ch=bool(pcb & 0x10), a=a, k=k, len=len(inf))
@@ -188,13 +198,13 @@ class Rig(object):
         self._annotate(res)
         self.ev.append(dict(e="End", res=res, ok=bool(ok), len=n, errno=errno, rtype=rtype))
 
-    def apdu(self, L, R, api="transceive"):
+    def apdu(self, L, R, api="transceive", fill="prng"):
         self.nop += 1
         a = self.nop
-        cmd, args = cmd_spec(a, L, api)
+        cmd, args = cmd_spec(a, L, api, fill, self.miu)
         if args is None:
             api = "transceive"
-        self.script["ops"].append(["apdu", L, R, api])
+        self.script["ops"].append(["apdu", L, R, api, fill])
         self.table[bytes(cmd)] = a
         self.R[a] = R
         self.cur = dict(id=a, cmd=bytes(cmd))
@@ -243,7 +253,7 @@ def run_script(sc, tid):
         if op[0] == "ping":
             rig.ping()
         else:
-            rig.apdu(op[1], op[2], op[3] if len(op) > 3 and op[3] else "transceive")
+            rig.apdu(op[1], op[2], op[3] if len(op) > 3 and op[3] else "transceive", op[4] if len(op) > 4 else "prng")
     return rig
 
 
@@ -349,6 +359,25 @@ def gen_scripts(tier, seed):
                 scripts.append(base_script(cfg, ops, ats=ats, fates=[DELIVER] * n + [LOSE]))
                 if d == "C":
                     scripts.append(base_script(cfg, ops, ats=ats, wtx_at=[n], wtxm=10))
+    # (1d) payload content: all-zero / constant data fields and commands that are one pattern of FSC-3 bytes repeated (all
+    #      full I-blocks identical), lengths at exact multiples of FSC-3 for 2..4 blocks and +-1, every FSCI: the chaining
+    #      bit is a matter of position, the card reassembles by it and must execute exactly the command that was sent
+    for fsci in range(9):
+        cfg = ("A" if fsci % 3 else "B", fsci, 10, 256, 256, 9)
+        miu = FSC_TABLE[fsci] - 3
+        for n in (2, 3, 4):
+            for L in (n * miu - 1, n * miu, n * miu + 1):
+                if quick and L != n * miu and (n + fsci) % 3:
+                    continue
+                for fill in ("zero", "periodic", "const"):
+                    if fill == "const" and (quick or L != n * miu):
+                        continue
+                    ops = [["apdu", L, 4, "send_apdu" if fill != "periodic" else "transceive", fill],
+                           ["apdu", 7, 3, "transceive", "prng"]]
+                    scripts.append(base_script(cfg, ops))
+                    if L == n * miu:      # a lost block / a lost acknowledge in the middle of the chain of identical blocks
+                        scripts.append(base_script(cfg, ops, fates=[DELIVER] * 2 + [LOSE]))
+                        scripts.append(base_script(cfg, ops, fates=[DELIVER] * 3 + [LOSE]))
     # (1c) S(WTX) at every turn of the card in command chaining, response chaining and after a retransmission, with
     #      every fault on the S(WTX) request, the S(WTX) response and the block that follows: what is sent after a
     #      fault must be the block of the state machine (R(NAK) / R(ACK)), never the S(WTX) response again
